@@ -1145,6 +1145,7 @@ func main() {
 		return
 	}
 
+	ifaceSeqs()
 	var a alphabet
 	depth := 3
 	if !pairs {
